@@ -130,7 +130,7 @@ type segment struct {
 
 // buildStream draws a stream. clean: only valid frames and non-marker junk.
 func buildStream(clean bool, withDialect bool, key *[32]byte) (data []byte, segs []segment) {
-	nseg := 1 + dsim.Choose(10)
+	nseg := 1 + dsim.Choose(depth(10, 24))
 	ts := uint64(2_000_000) + uint64(dsim.Choose(1000))
 	for i := 0; i < nseg; i++ {
 		kind := 0
@@ -258,7 +258,7 @@ func c05Body() func(h []dsim.Rec) {
 		}
 	}
 	// 1b. short streams: EVERY way of cutting the stream in two transport reads
-	if len(data) <= 420 {
+	if len(data) <= depth(420, 1500) {
 		for cut := 1; cut < len(data); cut++ {
 			res, ok := readAllCut("C05", data, 3, cut, len(data), io.EOF, cfg)
 			if !ok {
